@@ -199,3 +199,9 @@ except Exception:  # noqa: BLE001
 @onnx_function
 def add_eps30(x):
     return (x + 2.0 ** -30) * 1.0
+
+
+@onnx_function
+def outer_body_any(*xs):
+    """Function-body context for an arbitrary callable (C11 context sweep): SITE_CALL["any"] is the body."""
+    return SITE_CALL["any"](*xs)
